@@ -20,6 +20,8 @@ func checkC11(c *Ctx) {
 	c.rule("C11.c", "wire number sets are refused when dynamic", 3)
 	c.rule("C11.d", "the reader goroutine recovers and tears down", 2)
 	c.rule("C11.e", "enumeration of a static set cannot wrap at 2^32-1", 1)
+	c.rule("C11.f", "nil-able command fields are dereferenced only after a non-nil test (own or the matcher's)", 2)
+	c.rule("C11.g", "parsed wire numbers are never narrowed after parsing", 5)
 	ruleRecursion(c, "C11.a", func(f *ssa.Function) bool { return pkgPathOf(f) == modPath+"/imapclient" })
 	ruleZeroFromWire(c, "C11.b")
 	ruleDynamicRefused(c, "C11.c")
@@ -45,6 +47,8 @@ func checkC11(c *Ctx) {
 		c.check(closes, "C11.d", "read: teardown after recover", read.Pos(), "the recovering function runs closeWithError", "after a recovered panic the client is not torn down: pending commands hang")
 	}
 	ruleEnumerationBoundary(c, "C11.e")
+	ruleNilableFields(c, "C11.f")
+	ruleNoNarrowing(c, "C11.g")
 }
 
 // ruleZeroFromWire: C11.b.
@@ -232,7 +236,7 @@ func ruleEnumerationBoundary(c *Ctx, rule string) {
 				continue
 			}
 			bo, ok := ifi.Cond.(*ssa.BinOp)
-			if !ok || bo.Op != token.LEQ {
+			if !ok || (bo.Op != token.LEQ && bo.Op != token.LSS) {
 				continue
 			}
 			ph, ok := bo.X.(*ssa.Phi)
@@ -253,6 +257,23 @@ func ruleEnumerationBoundary(c *Ctx, rule string) {
 				}
 			}
 			if !inc {
+				continue
+			}
+			if bo.Op == token.LSS {
+				// `n < bound+k`: the sum itself wraps when bound is the maximum
+				sum, ok := bo.Y.(*ssa.BinOp)
+				if !ok || sum.Op != token.ADD {
+					continue
+				}
+				if _, isConst := sum.X.(*ssa.Const); isConst {
+					continue
+				}
+				if k, ok := constInt(sum.Y); !ok || k < 1 {
+					continue
+				}
+				n++
+				c.fail(rule, fmt.Sprintf("%s: for %s < bound+k; %s++", fnKey(fn), ph.Comment, ph.Comment), bo.Pos(),
+					fmt.Sprintf("the loop limit is an unsigned %s sum bound+k with a non-constant bound: when the bound is the maximum value the sum wraps to a small number and the loop ends early (enumerating a set that contains 4294967295 silently drops members)", bt.Name()))
 				continue
 			}
 			n++
